@@ -1071,7 +1071,7 @@ pub fn eval_case2(prop: &str, case: &Case, obs: &mut Obs) -> Vec<Violation> {
                 return vec![];
             }
             let bytes = sink.bytes();
-            let exp = mon::c19::Expect { width: h.cfg.width, height: h.cfg.height, movie_timescale: Some(1000), media_timescale: 90_000, n_tracks: 1 + h.cfg.audio_effective().is_some() as usize };
+            let exp = mon::c19::Expect { width: h.cfg.width, height: h.cfg.height, movie_timescale: Some(1000), media_timescale: 90_000, n_tracks: 1 + h.cfg.audio_effective().is_some() as usize, codec: Some(h.cfg.vcodec) };
             obs.nontrivial(crate::util::fnv(format!("{} {}x{} {:?}", h.cfg.cell(), h.cfg.width, h.cfg.height, h.cfg.audio).as_bytes()));
             obs.sample(format!("{} {}x{} audio={:?}", h.cfg.cell(), h.cfg.width, h.cfg.height, h.cfg.audio));
             obs.set("cells", h.cfg.cell());
@@ -1083,7 +1083,7 @@ pub fn eval_case2(prop: &str, case: &Case, obs: &mut Obs) -> Vec<Violation> {
             for r in &ex.results {
                 let vs = match r {
                     FRes::Bytes(b) => {
-                        let exp = mon::c19::Expect { width: h.cfg.width, height: h.cfg.height, movie_timescale: None, media_timescale: h.cfg.timescale, n_tracks: 1 };
+                        let exp = mon::c19::Expect { width: h.cfg.width, height: h.cfg.height, movie_timescale: None, media_timescale: h.cfg.timescale, n_tracks: 1, codec: if h.cfg.via_builder { Some(h.cfg.vcodec) } else { None } };
                         obs.nontrivial(crate::util::fnv(b));
                         mon::c19::check_stream(b, "init", Some(&exp), obs)
                     }
